@@ -213,6 +213,8 @@ def run():
         a = gen.random_abstract(rng, N=rng.randint(2, 7), K=rng.randint(1, 6), max_edges=12, nsites=4, nmuts=4, nalleles=4)
         if sum(a["flags"]) == 0:
             continue        # a VCF needs at least one sample column (outside the property's domain)
+        if i % 3 == 2:       # node ids in no particular order (sample nodes are not the first nodes)
+            a = gen.permute_nodes(a, random.Random(SEED * 1000003 + i))
         c = run_case(a, rng)
         # the VCF positions are on the doubled grid: replace the site positions used for POS
         c["ts"]["sites"] = [dict(pos=s["pos"], anc=s["anc"]) for s in c["ts"]["sites"]]
